@@ -117,11 +117,6 @@ func cmdProducer(args []tok) string {
 					break
 				}
 				if limit >= 0 && got >= limit {
-					if got == 0 {
-						// let the producer's dial complete first: a reset while the connection is still being set up makes
-						// producer.Run fail at start-up, which is not a delivery matter
-						time.Sleep(20 * time.Millisecond)
-					}
 					if f.mode == 1 {
 						if tc, ok := c.(*net.TCPConn); ok {
 							tc.SetLinger(0) // RST
